@@ -87,6 +87,16 @@ def check_function(fn, releasers, pointer_only=True, use_facts=True):
                 for q in list(fd):
                     if q == n["name"] or q.startswith(n["name"] + "->"):
                         del fd[q]
+            if n["k"] == "call":
+                # `helper (..., &line)`: the callee may store a new value through the address
+                for a in n.get("args", ()):
+                    a2 = strip_casts(a)
+                    if a2 is not None and a2["k"] == "un" and a2.get("op") == "&":
+                        p = ap(a2["e"])
+                        if p is not None:
+                            for q in list(fd):
+                                if q == p or q.startswith(p + "->") or q.startswith(p + "."):
+                                    del fd[q]
         # 3. new releases
         for c in calls(stmt):
             cn = c.get("callee")
